@@ -4,6 +4,7 @@
 #include "report.hpp"
 #include <rapidcheck.h>
 #include <cstdlib>
+#include <csignal>
 #include <cstring>
 #include <functional>
 #include <set>
@@ -29,7 +30,7 @@ struct Options
     long cases = 1000;
     long seed = 1;
     int max_size = 100;
-    std::string out, failtape, replay, inflight, hashes;
+    std::string out, failtape, replay, inflight, hashes, fuzz_input;
     std::set<std::string> open;  // signatures of open known findings
     std::map<std::string, std::string> kv;  // harness-specific options (--set k=v)
     long geti(const std::string& k, long d) const
@@ -45,6 +46,34 @@ inline Options& options()
     return o;
 }
 
+// The draw log of the case that is executing right now: dumped by a signal handler when a sanitizer aborts the
+// process (memory error, undefined behaviour), so that the driver still gets a replayable tape.
+inline Draw*& inflight_draw()
+{
+    static Draw* d = nullptr;
+    return d;
+}
+inline std::string& inflight_path()
+{
+    static std::string p;
+    return p;
+}
+inline void inflight_signal_handler(int sig)
+{
+    if (inflight_draw() && !inflight_path().empty())
+        inflight_draw()->save(inflight_path(), "in-flight case at signal " + std::to_string(sig));
+    std::signal(sig, SIG_DFL);
+    std::raise(sig);
+}
+inline void install_inflight_dump(const std::string& path)
+{
+    inflight_path() = path;
+    std::signal(SIGABRT, inflight_signal_handler);
+    std::signal(SIGSEGV, inflight_signal_handler);
+    std::signal(SIGBUS, inflight_signal_handler);
+    std::signal(SIGFPE, inflight_signal_handler);
+}
+
 using RunCase = std::function<void(Draw&, Case&)>;
 // returns the signature name of the known finding this violation belongs to, or "" if none
 using Matcher = std::function<std::string(const Violation&, const Case&)>;
@@ -56,6 +85,11 @@ inline int execute(const RunCase& run, const Matcher& match, Draw& d, Case& c, s
 {
     Violation* vio = nullptr;
     Violation holder("", "");
+    inflight_draw() = &d;
+    struct ClearInflight
+    {
+        ~ClearInflight() { inflight_draw() = nullptr; }
+    } clear_inflight;
     try
     {
         run(d, c);
@@ -130,6 +164,8 @@ inline void parse_args(int argc, char** argv)
             o.failtape = next();
         else if (a == "--replay")
             o.replay = next();
+        else if (a == "--fuzz-input")
+            o.fuzz_input = next();
         else if (a == "--inflight")
             o.inflight = next();
         else if (a == "--hashes")
@@ -196,17 +232,45 @@ inline int replay_main(const char* prop, const RunCase& run, const Matcher& matc
     return 1;
 }
 
+// Decodes a libFuzzer input (crash artifact) with the structure-aware FuzzDraw and runs it once; the decoded
+// recipe is written as a tape so that the ordinary replay path can take over.
+inline int fuzz_input_main(const char* prop, const RunCase& run, const Matcher& match)
+{
+    std::ifstream in(options().fuzz_input, std::ios::binary);
+    std::vector<uint8_t> bytes((std::istreambuf_iterator<char>(in)), std::istreambuf_iterator<char>());
+    FuzzDraw d(bytes.data(), bytes.size());
+    if (!options().failtape.empty())
+        install_inflight_dump(options().failtape + ".inflight");
+    Case c;
+    std::string msg, sig;
+    int r = execute(run, match, d, c, msg, sig);
+    std::printf("FUZZ-INPUT property=%s file=%s\n  case: %s\n", prop, options().fuzz_input.c_str(), c.desc.c_str());
+    if (!options().failtape.empty())
+        d.save(options().failtape, std::string(prop) + " " + msg + " | " + c.desc);
+    if (r == 1)
+    {
+        std::printf("  result: FAIL %s\n", msg.c_str());
+        return 1;
+    }
+    std::printf("  result: %s\n", r == 2 ? "KNOWN" : "PASS");
+    return r == 2 ? 3 : 0;
+}
+
 inline int run_main(int argc, char** argv, const char* prop, const RunCase& run, const Matcher& match = no_match)
 {
     parse_args(argc, argv);
     Options& o = options();
     if (!o.replay.empty())
         return replay_main(prop, run, match);
+    if (!o.fuzz_input.empty())
+        return fuzz_input_main(prop, run, match);
 
     std::string params = "seed=" + std::to_string(o.seed) + " max_success=" + std::to_string(o.cases) +
         " max_size=" + std::to_string(o.max_size) + " max_discard_ratio=50";
     setenv("RC_PARAMS", params.c_str(), 1);
 
+    if (!o.failtape.empty())
+        install_inflight_dump(o.failtape + ".inflight");
     bool failing = false;
     bool ok = rc::check(std::string(prop), [&]() {
         RcDraw d;
